@@ -34,6 +34,7 @@ FullHmmTransitionMatrix& FullHmmTransitionMatrix::operator=(const FullHmmTransit
 {
   AbstractHmmTransitionMatrix::operator=(hptm);
   AbstractParametrizable::operator=(hptm);
+  vSimplex_ = hptm.vSimplex_;
 
   return *this;
 }
